@@ -277,3 +277,152 @@ func checkC16MaskChanged(c *Ctx, n int) {
 		})
 	}
 }
+
+// checkIniLateSection (C13, C14): one IniParser reads a file that names a section no group or command
+// answers to yet (ErrUnknownGroup, or skipped under IgnoreUnknown); the program then declares that group
+// or command; the same IniParser reads the file again: the section now denotes the new group / command,
+// its entries select its options and store their values (as the flags would), and a faulty line in it
+// is reported with its number.
+func checkIniLateSection(c *Ctx, n int, prop string) {
+	r := c.Rng
+	for i := 0; i < n; i++ {
+		asCommand := r.Intn(2) == 0
+		ignore := r.Intn(2) == 0
+		late := &StructDesc{Fields: []FieldDesc{
+			{Name: "Level", Exported: true, Kind: "v", Ty: "int", Tag: `long:"level"`},
+			{Name: "Tag", Exported: true, Kind: "v", Ty: "Lstr", Tag: `long:"tag"`}}}
+		root := &StructDesc{Fields: []FieldDesc{{Name: "Verbose", Exported: true, Kind: "v", Ty: "bool", Tag: `short:"v" long:"verbose"`}}}
+		cs := &Case{Name: "app", NsDelim: ".", EnvNsDelim: "_"}
+		if ignore {
+			cs.Opts |= flags.IgnoreUnknown
+		}
+		cs.Build = []BuildOp{{Kind: "addgroup", Target: 1, Short: "Application Options", Struct: root},
+			{Kind: "setcmd", Target: 1, Attr: "subopt", Vals: []string{"1"}}}
+		section := "Plugin"
+		add := BuildOp{Kind: "addgroup", Target: 1, Short: "Plugin", Struct: late}
+		if asCommand {
+			section = "plugin"
+			add = BuildOp{Kind: "addcommand", Target: 1, Name: "plugin", Short: "the plugin", Struct: late}
+		}
+		faulty := r.Intn(4) == 0
+		text := "verbose = true\n[" + section + "]\nlevel = 7\ntag = x\ntag = y\n"
+		wantLine := 0
+		if faulty {
+			text = "verbose = true\n[" + section + "]\nlevel = 7\nlevel = 1!2\n"
+			wantLine = 4
+		}
+		asDefaults := r.Intn(3) == 0
+		cs.Ops = []Op{{Kind: "iniparse", Text: text, AsDefaults: asDefaults}, {Kind: "build", B: &add}, {Kind: "iniparse", Text: text, AsDefaults: asDefaults}}
+		if asDefaults {
+			cs.Ops = append(cs.Ops, Op{Kind: "parse", Args: []string{}})
+		}
+		cs.Description = describeOps(cs)
+		c.RunCases([]*Case{cs}, func(cr *CaseResult) {
+			c.classifyCase(cr)
+			if cr.Real == nil || cr.Real.dead {
+				return
+			}
+			c.Class(fmt.Sprintf("%s/late-section: command=%v ignore-unknown=%v faulty-line=%v as-defaults=%v", strings.ToLower(prop), asCommand, ignore, faulty, asDefaults))
+			first, second := nthLine(cr.Impl, "INI ", 0), nthLine(cr.Impl, "INI ", 1)
+			in := map[string]interface{}{"case": cs.Description, "text": text, "section_declared_after_the_first_read": section}
+			level, tags := int64(-1), ""
+			if fr, ok := cr.Real.fields["Level"]; ok {
+				level = fr.val.Int()
+			}
+			if fr, ok := cr.Real.fields["Tag"]; ok {
+				tags = fmt.Sprint(fr.val.Interface())
+			}
+			got := fmt.Sprintf("first read: %s; second read: %s; Level=%d Tag=%s", decodeLine(first), decodeLine(second), level, tags)
+			firstOK := (ignore && first == "INI ok") || (!ignore && strings.HasPrefix(first, fmt.Sprintf("INI flags %d ", int(flags.ErrUnknownGroup))))
+			var ok bool
+			var want string
+			if faulty {
+				want = fmt.Sprintf("second read: IniError at line %d", wantLine)
+				ws := strings.Fields(second + " x x x")
+				ok = firstOK && ws[1] == "ini" && ws[3] == fmt.Sprint(wantLine)
+			} else {
+				want = "second read: success; Level=7 Tag=[x y]"
+				ok = firstOK && second == "INI ok" && level == 7 && tags == "[x y]"
+			}
+			if !ok {
+				in["case_file"] = c.saveCase(cr)
+			}
+			c.Check("a-section-declared-after-an-earlier-read-is-known", ok, prop+":late-section", in, got, want)
+		})
+	}
+}
+
+// checkC05LateBelow: a group declared on a SUBCOMMAND after the parser has been used (a call or an ini
+// read).  Its options take part in the next call like any others: defaults and environment apply to
+// them, occurrences replace what the program stored.
+func checkC05LateBelow(c *Ctx, n int) {
+	r := c.Rng
+	for i := 0; i < n; i++ {
+		envSet := r.Intn(3) == 0
+		late := &StructDesc{Fields: []FieldDesc{
+			{Name: "Level", Exported: true, Kind: "v", Ty: "int", Tag: `long:"level" default:"3" env:"VF_LATE_LEVEL"`},
+			{Name: "Tag", Exported: true, Kind: "v", Ty: "Lstr", Tag: `long:"tag" default:"x" default:"y"`},
+		}}
+		late.Fields[1].Init = "L[s:" + hx("stored")
+		root := &StructDesc{Fields: []FieldDesc{
+			{Name: "Verbose", Exported: true, Kind: "v", Ty: "bool", Tag: `short:"v"`},
+			{Name: "Cmd", Exported: true, Kind: "s", Tag: `command:"cmd"`, Sub: &StructDesc{Fields: []FieldDesc{
+				{Name: "Own", Exported: true, Kind: "v", Ty: "str", Tag: `long:"own" default:"o"`}}}},
+		}}
+		cs := &Case{Name: "app", NsDelim: ".", EnvNsDelim: "_"}
+		if envSet {
+			cs.Env = []EnvVar{{"VF_LATE_LEVEL", "7"}}
+		}
+		cs.Build = []BuildOp{{Kind: "addgroup", Target: 1, Short: "Application Options", Struct: root},
+			{Kind: "setcmd", Target: 1, Attr: "subopt", Vals: []string{"1"}}}
+		switch r.Intn(3) {
+		case 0:
+			cs.Ops = []Op{{Kind: "parse", Args: []string{"-v"}}}
+		case 1:
+			cs.Ops = []Op{{Kind: "parse", Args: []string{"cmd"}}}
+		default:
+			cs.Ops = []Op{{Kind: "iniparse", Text: "[cmd]\nown = i\n"}}
+		}
+		cs.Ops = append(cs.Ops, Op{Kind: "build", B: &BuildOp{Kind: "addgroup", Target: 2, Short: "Late Options", Struct: late}})
+		given := r.Intn(2) == 0
+		argv := []string{"cmd"}
+		if r.Intn(3) == 0 {
+			argv = []string{}
+		}
+		wantLevel, wantTag := int64(3), "[x y]"
+		if envSet {
+			wantLevel = 7
+		}
+		if given && len(argv) > 0 {
+			argv = append(argv, "--tag=a", "--tag", "c", "--level=9")
+			wantLevel, wantTag = 9, "[a c]"
+		}
+		cs.Ops = append(cs.Ops, Op{Kind: "parse", Args: argv})
+		cs.Description = describeOps(cs)
+		c.RunCases([]*Case{cs}, func(cr *CaseResult) {
+			c.classifyCase(cr)
+			if cr.Real == nil || cr.Real.dead {
+				return
+			}
+			var obs parseObs
+			for _, o := range parseBlocks(cr) {
+				obs = o
+			}
+			c.Class(fmt.Sprintf("c05/late-below: env=%v occurrences=%v command-selected=%v", envSet, given && len(argv) > 1, len(argv) > 0))
+			in := map[string]interface{}{"case": cs.Description, "group_added_to_command": "cmd", "judged_call": argv, "environment": cs.Env}
+			level, tags := int64(-1), ""
+			if fr, ok := cr.Real.fields["Level"]; ok {
+				level = fr.val.Int()
+			}
+			if fr, ok := cr.Real.fields["Tag"]; ok {
+				tags = fmt.Sprint(fr.val.Interface())
+			}
+			ok := obs.panic == "" && obs.errKind == "ok" && level == wantLevel && tags == wantTag
+			if !ok {
+				in["case_file"] = c.saveCase(cr)
+			}
+			c.Check("options-declared-after-an-earlier-call-get-their-sources-like-any-other", ok, "C05:late-below", in,
+				fmt.Sprintf("%s %s %q Level=%d Tag=%s", obs.panic, obs.errKind, obs.errMsg, level, tags), fmt.Sprintf("success, Level=%d Tag=%s", wantLevel, wantTag))
+		})
+	}
+}
